@@ -77,6 +77,13 @@ Definition pol_printed (p : polarization) : string :=
    waist_position_um = "auto", idler = "auto", periodic_poling = off, apodization = off,
    pump.spectrum_threshold = 1e-2 ("If unset, defaults to 1e-2"), 4 decimals in exported configurations. *)
 Definition spec_spectrum_threshold : Q := 1 # 100.
+(* what an OMITTED field of the JSON text means, field by field (every field that may be omitted; all others are required) *)
+Definition spec_omitted_values : list (string * string) :=
+  [ ("CrystalConfig.phi_deg", "0"); ("CrystalConfig.theta_deg", "auto"); ("CrystalConfig.counter_propagation", "false");
+    ("SignalConfig.phi_deg", "0"); ("SignalConfig.waist_position_um", "auto");
+    ("IdlerConfig.phi_deg", "0"); ("IdlerConfig.waist_position_um", "auto");
+    ("SPDCConfig.idler", "auto"); ("SPDCConfig.periodic_poling", "Off");
+    ("PeriodicPolingConfig.Config.apodization", "Off") ].
 Definition spec_config_decimals : Z := 4.
 (* Default::default() of the configuration: KTP, type-2 e->eo, 2000 um, 20 C; 775 nm pump, 100 um waist, 5.53 nm,
    1 mW; 1550 nm signal, collinear, 100 um waist, deff 1 pm/V. *)
